@@ -138,8 +138,17 @@ def build_and_audit(pid: str, tier: str, log: list):
         except Exception as e:  # pragma: no cover
             info["translator_errors"] = [f"SOURCES.json unreadable: {e}"]
         if rc != 0 or info["translator_errors"]:
-            info["proof_ok"] = False
-            info["problems"].append({"kind": "translator", "detail": info["translator_errors"] or out[-2000:]})
+            # a generator that failed leaves its Generated file stale: the tie is broken for exactly the properties whose
+            # theorems (transitively) import that file
+            failed = set(meta.get("failed_outputs", [])) if isinstance(locals().get("meta"), dict) else set()
+            mine = {os.path.basename(f) for f in imported_lean_files(pid) if os.sep + "Generated" + os.sep in f}
+            if not failed or (failed & mine):
+                info["proof_ok"] = False
+                info["problems"].append({"kind": "translator", "detail": info["translator_errors"] or out[-2000:],
+                                         "stale_generated_files": sorted(failed & mine)})
+            else:
+                info["translator_errors_elsewhere"] = info["translator_errors"]
+                info["translator_errors"] = []
         # 2 build
         target = f"CijProofs.Properties.{pid}"
         rc, out, dt = sh(["lake", "build", target, "driver"], cwd=LEAN, timeout=5400)
